@@ -1830,10 +1830,12 @@ func (s *Store) Backup(ctx context.Context, br *proto.BackupRequest, dst io.Writ
 				return err
 			}
 			defer func() {
-				err := dstGz.Close()
-				if err != nil && retErr == nil {
-					retErr = err
+				if retErr != nil {
+					// The backup failed. Leave the gzip stream unterminated so that
+					// whatever was written so far cannot be taken for a complete backup.
+					return
 				}
+				retErr = dstGz.Close()
 			}()
 			_, err = io.Copy(dstGz, srcFD)
 		} else {
@@ -1848,10 +1850,12 @@ func (s *Store) Backup(ctx context.Context, br *proto.BackupRequest, dst io.Writ
 				return err
 			}
 			defer func() {
-				err := dstGz.Close()
-				if err != nil && retErr == nil {
-					retErr = err
+				if retErr != nil {
+					// The backup failed. Leave the gzip stream unterminated so that
+					// whatever was written so far cannot be taken for a complete backup.
+					return
 				}
+				retErr = dstGz.Close()
 			}()
 			ww = dstGz
 		}
@@ -1884,10 +1888,12 @@ func (s *Store) Backup(ctx context.Context, br *proto.BackupRequest, dst io.Writ
 				return err
 			}
 			defer func() {
-				err := dstGz.Close()
-				if err != nil && retErr == nil {
-					retErr = err
+				if retErr != nil {
+					// The backup failed. Leave the gzip stream unterminated so that
+					// whatever was written so far cannot be taken for a complete backup.
+					return
 				}
+				retErr = dstGz.Close()
 			}()
 			_, err = io.Copy(dstGz, tmpReadFD)
 		} else {
